@@ -35,15 +35,17 @@ LEVEL_TEXT = ("Lean theorems for ALL step lists of one object's stream (any even
               "log and clock are independent of consistency_time and stay a prefix of the final log; false for a sleep-first order: "
               "barrier_first_delays_witness), not_delayed_kopf (kopf's order: indexing/raw-event handlers at the dequeue, spawning right "
               "after them, sleep only then, a new arrival ends the sleep at once), interrupted_never_achieved, disabled (T=0), "
-              "deadline_monotone, retire_after_deadline, never_arrives; noop_write_stall_witness documents a liveness quirk outside C07's "
-              "clauses. 'Daemons and timers keep running during the barrier' (separate tasks) is covered by the oracle only (timer ticks "
+              "deadline_monotone, retire_after_deadline, never_arrives; noop_patch_does_not_arm + noop_cycle_leaves_consistent (fix 460c956: a "
+              "PATCH answered with the version just processed arms nothing, the next event is handled as consistent) with "
+              "noop_stall_regression_witness on the pre-fix feedback (handlers starve). 'Daemons and timers keep running during the barrier' (separate tasks) is covered by the oracle only (timer ticks "
               "on schedule during barrier sleeps, daemon spawned in the first iteration). The model is hand-written; it is tied to the code "
               "by replaying every iteration of seeded whole-operator simulations (incl. when the low-level stages really started and the "
               "background patches in between); the wf hypotheses of the theorems are checked on the real traces.")
 THEOREMS = [("Kopf.Props.C07", "Kopf.C07." + n) for n in [
     "barrier_partial", "barrier_background_witness", "barrier_every_patch_partial", "barrier_view_partial",
     "not_delayed", "not_delayed_kopf", "barrier_first_delays_witness", "interrupted_never_achieved", "disabled",
-    "deadline_monotone", "retire_after_deadline", "never_arrives", "noop_write_stall_witness"]]
+    "deadline_monotone", "retire_after_deadline", "never_arrives", "noop_patch_does_not_arm",
+    "noop_cycle_leaves_consistent", "noop_stall_regression_witness"]]
 RULE = ("seeded whole-operator scenarios: T in {0, 0.25, 1, 5} s; request latency 1-64 ticks, response latency 0-48 ticks; echo delay of "
         "own writes in {0, < T, = T after the patch, = exactly the worker's deadline, > T}; foreign-event delay and jitter; 0-5 foreign "
         "edits before and 0-5 after each chosen own write (reactive offsets), slips right before a PATCH (422 -> remaining patch); create/"
@@ -130,11 +132,14 @@ def gen_scenario(rng: Any, i: int) -> dict:
     with_delete = rng.random() < 0.4
     if with_delete:
         handlers.append({"kind": "delete", "id": "x0", "script": script(2), "default": "ok", "opts": {"backoff": 0.25}})
-    ev = rng.choice([None, "plain", "plain", "plain", "slow", "result"])
+    ev = rng.choice([None, "plain", "plain", "plain", "slow", "result", "const"])
     if ev == "plain":
         handlers.append({"kind": "event", "id": "e0"})
     elif ev == "slow":
         handlers.append({"kind": "event", "id": "e0", "script": [["sleep", rng.choice([0.125, 0.5]), "ok"]] * rng.choice([1, 3, 30])})
+    elif ev == "const":
+        # the same result in every cycle: after the first one every PATCH is a non-empty server-side no-op
+        handlers.append({"kind": "event", "id": "e0", "script": [], "default": ["ok", {"state": "seen"}]})
     elif ev == "result":
         handlers.append({"kind": "event", "id": "e0", "script": [["ok", {"seen": k // rng.choice([1, 2, 50])}] for k in range(rng.choice([2, 6, 40]))]})
     if rng.random() < 0.6:
@@ -284,6 +289,33 @@ def oracle(ctx: Ctx, sc: dict, tr: dict) -> None:
                         ctx.oracle_fail(f"indexer {hid} was not invoked at the dequeue instant t={cyc['t0']} of event {cyc['rv']}",
                                         {"scenario": sc, "cycle": cyc["i"]},
                                         {"site": "process_resource_event", "shape": "indexing delayed or skipped"})
+        # "…until the patched version has come back": once it has — the view at hand is not older than the worker's
+        # last own PATCH result — and no patch was pending at the entry, the barrier must not hold change handlers back.
+        # (A PATCH that changed nothing is answered with the version just processed: it HAS come back. Fix 460c956.)
+        releasing = {c["i"] for c in cycles if c.get("result_rv") and "~" in str(c["result_rv"])}
+        for cyc in cycles:
+            c7 = cyc.get("c07")
+            if c7 is None or cyc.get("error") or cyc["t0"] >= t_end or c7.get("matched") is None or T == 0:
+                continue
+            must_block = any(c7["reqfin"])
+            fin_turn = (must_block and not c7["blocked"] and not c7["ongoing"]) or ((not must_block) and c7["blocked"])
+            required = bool(cyc["has_cause"] and c7["prematch"] and not fin_turn)
+            held = required and not c7["matched"]
+            if not held:
+                continue
+            earlier = [p for p in o["own"] if float(p["t_applied"]) <= cyc["t0"] and p["cycle"] < cyc["i"]]
+            if not earlier or earlier[-1]["cycle"] in releasing or not c7["patch_init_empty"] or cyc["reason"] == "gone":
+                continue
+            last = earlier[-1]
+            if int(cyc["rv"]) >= int(last["applied_rv"]):
+                ctx.oracle_fail(
+                    f"change handlers were held back at t={cyc['t0']} on resourceVersion {cyc['rv']} although the worker's last own "
+                    f"PATCH result {last['applied_rv']} (applied at t={last['t_applied']}) had come back through the watch stream and no "
+                    f"patch was pending",
+                    {"scenario": sc, "cycle": cyc["i"], "patch": last},
+                    {"site": "queueing.worker", "shape": "change handlers held back although the own last patch's version has come back"})
+            else:
+                ctx.count("held_iteration", "view older than the own last patch (rightly held)")
         # a new arrival ends the barrier sleep at once: its own low-level processing is not held up
         pos = 0
         for life in o["lives"]:
